@@ -11,6 +11,10 @@ from . import core
 from .core import SR, SB, SI, _is_nan_float
 
 
+def _is_da(a):
+    return hasattr(a, "dims") and hasattr(a, "values")
+
+
 def _isobj(a):
     return isinstance(a, (SR, SB, SI)) or (isinstance(a, np.ndarray) and a.dtype == object)
 
@@ -222,32 +226,49 @@ class SymNP:
 
     absolute = abs
 
-    def sqrt(self, a):
-        if isinstance(a, SR):
-            return a.sqrt()
-        return np.sqrt(a)
+    def _mk(name, nin=1):  # noqa
+        def scalar(*xs):
+            ys = []
+            for x in xs:
+                if _is_nan_float(x):
+                    return float("nan")
+                if isinstance(x, (SR,)):
+                    ys.append(x)
+                elif isinstance(x, SI):
+                    ys.append(SR(core.zt(x)))
+                else:
+                    ys.append(SR(core._frac(x)) if core._frac(x) is not None else x)
+            if not isinstance(ys[0], SR):
+                raise core.Unsupported(f"{name} of {ys[0]!r}")
+            return getattr(ys[0], name)(*ys[1:])
 
-    def _u(name):  # noqa
-        def f(self, a, *rest, **k):
-            if isinstance(a, (SR,)):
-                return getattr(a, name)(*rest)
-            if isinstance(a, (int, float, np.floating, np.integer)) and rest and isinstance(rest[0], SR):
-                return getattr(SR(core._frac(a)), name)(*rest)
-            return getattr(np, name)(a, *rest, **k)
+        elem = np.frompyfunc(scalar, nin, 1)
+
+        def f(self, *args, **k):
+            if any(_is_da(a) for a in args):
+                if any(_isobj(getattr(a, "values", a)) for a in args):
+                    import xarray
+                    return xarray.apply_ufunc(elem, *args)
+                return getattr(np, name)(*args, **k)
+            if any(_isobj(a) for a in args):
+                r = elem(*args)
+                return r.view(SymArray) if isinstance(r, np.ndarray) else r
+            return getattr(np, name)(*args, **k)
         f.__name__ = name
         return f
 
-    exp = _u("exp")
-    log = _u("log")
-    cos = _u("cos")
-    sin = _u("sin")
-    tanh = _u("tanh")
-    sinh = _u("sinh")
-    cosh = _u("cosh")
-    arctan2 = _u("arctan2")
-    rint = _u("rint")
-    floor = _u("floor")
-    del _u
+    sqrt = _mk("sqrt")
+    exp = _mk("exp")
+    log = _mk("log")
+    cos = _mk("cos")
+    sin = _mk("sin")
+    tanh = _mk("tanh")
+    sinh = _mk("sinh")
+    cosh = _mk("cosh")
+    arctan2 = _mk("arctan2", 2)
+    rint = _mk("rint")
+    floor = _mk("floor")
+    del _mk
 
     def max(self, a, *args, **k):
         return np.max(a, *args, **k)
